@@ -14,6 +14,52 @@ use std::sync::atomic::{AtomicU64, AtomicUsize, Ordering};
 use std::sync::Mutex;
 use zkryptium::utils::verif_hooks as hooks;
 
+// ---------------------------------------------------------------- counting allocator (per thread)
+pub mod alloc_count {
+    use std::alloc::{GlobalAlloc, Layout, System};
+    use std::cell::Cell;
+    thread_local! {
+        static CUR: Cell<usize> = const { Cell::new(0) };
+        static PEAK: Cell<usize> = const { Cell::new(0) };
+        static BIGGEST: Cell<usize> = const { Cell::new(0) };
+    }
+    pub struct Counting;
+    unsafe impl GlobalAlloc for Counting {
+        unsafe fn alloc(&self, l: Layout) -> *mut u8 {
+            let _ = CUR.try_with(|c| {
+                let v = c.get().saturating_add(l.size());
+                c.set(v);
+                let _ = PEAK.try_with(|p| if v > p.get() { p.set(v) });
+                let _ = BIGGEST.try_with(|b| if l.size() > b.get() { b.set(l.size()) });
+            });
+            System.alloc(l)
+        }
+        unsafe fn dealloc(&self, p: *mut u8, l: Layout) {
+            let _ = CUR.try_with(|c| c.set(c.get().saturating_sub(l.size())));
+            System.dealloc(p, l)
+        }
+        unsafe fn realloc(&self, p: *mut u8, l: Layout, new: usize) -> *mut u8 {
+            let _ = CUR.try_with(|c| {
+                let v = c.get().saturating_sub(l.size()).saturating_add(new);
+                c.set(v);
+                let _ = PEAK.try_with(|p| if v > p.get() { p.set(v) });
+                let _ = BIGGEST.try_with(|b| if new > b.get() { b.set(new) });
+            });
+            System.realloc(p, l, new)
+        }
+    }
+    /// start a measurement window on this thread
+    pub fn reset() {
+        CUR.with(|c| c.set(0));
+        PEAK.with(|c| c.set(0));
+        BIGGEST.with(|c| c.set(0));
+    }
+    /// (peak live bytes allocated since reset, biggest single request)
+    pub fn peak() -> (usize, usize) {
+        (PEAK.with(|c| c.get()), BIGGEST.with(|c| c.get()))
+    }
+}
+
 #[derive(Clone, Copy, Debug, PartialEq, Eq)]
 pub enum Tier {
     Quick,
@@ -58,6 +104,8 @@ pub struct Monitored<T> {
     pub value: Option<T>,
     pub work: hooks::WorkCounts,
     pub draws: Vec<hooks::Draw>,
+    /// (peak live bytes, biggest single request) allocated by the call on this thread
+    pub alloc: (usize, usize),
 }
 
 pub struct Ctx {
@@ -65,6 +113,8 @@ pub struct Ctx {
     pub tier: Tier,
     pub seed: u64,
     pub only_scenario: Option<usize>,
+    /// flush the event log after every `call` line (C08: a dying worker must leave its last call behind)
+    pub flush_calls: bool,
     pub events: AtomicU64,
     distinct: Mutex<HashSet<u64>>,
     ops: Mutex<BTreeMap<String, u64>>,
@@ -121,6 +171,7 @@ impl Ctx {
             tier,
             seed,
             only_scenario: None,
+            flush_calls: false,
             events: AtomicU64::new(0),
             distinct: Mutex::new(HashSet::new()),
             ops: Mutex::new(BTreeMap::new()),
@@ -163,6 +214,9 @@ impl Ctx {
                 self.log_budget.fetch_sub(1, Ordering::Relaxed);
                 let mut w = l.lock().unwrap();
                 let _ = writeln!(w, "{}", v);
+                if self.flush_calls && v["ev"] == "call" {
+                    let _ = w.flush();
+                }
             }
         }
     }
@@ -182,7 +236,9 @@ impl Ctx {
         self.log_line(&json!({"ev":"call","n":n,"op":op,"case":sig,"scn":SCENARIO.with(|s| s.get())}));
         hooks::reset_work(fuel);
         hooks::record_draws(true);
+        alloc_count::reset();
         let r = catch_unwind(AssertUnwindSafe(f));
+        let alloc = alloc_count::peak();
         hooks::record_draws(false);
         let work = hooks::work_counts();
         hooks::reset_work(None);
@@ -205,6 +261,7 @@ impl Ctx {
             value,
             work,
             draws,
+            alloc,
         }
     }
 
